@@ -1,3 +1,422 @@
 package main
 
-func resumeMain(args []string) { die("not yet") }
+// C12, live half: a client started on a store that holds a session resumes with that key, salt
+// and address without a new key exchange; on a missing store its first frame is a plain req_pq;
+// on a file cut short no client comes into being.
+//
+// The reference server knows exactly one auth key. A decoy listener stands at the address the
+// client is CONFIGURED with (Config.ServerHost): a resumed client must dial the STORED address
+// instead. Observations only (kinds, counts, equality of fields); verdicts in lib/props/c12m.py
+// against the pure decision of coq/theories/Misc/SessionResume.v (Props/C12m.v).
+// Every scenario runs in a child process (see migrate.go).
+//
+//	T <id> <spec>
+//	O <id> <key> <value>
+//	X <id> <exit status> <hex stderr tail>
+
+import (
+	"bytes"
+	"fmt"
+	"net"
+	"os"
+	"path/filepath"
+	"strconv"
+	"strings"
+	"sync"
+	"sync/atomic"
+	"time"
+
+	"github.com/xelaj/mtproto"
+	"github.com/xelaj/mtproto/internal/mtproto/objects"
+	"github.com/xelaj/mtproto/internal/session"
+	"github.com/xelaj/mtproto/telegram"
+	"github.com/xelaj/mtproto/verifharness/refserver"
+	vc "verifcommon"
+)
+
+type rspec struct {
+	kind string // filled | missing | torn
+	path string // abs | rel | bare
+	via  string // file | storage | newclient
+	salt int64
+	cut  int // torn: number of bytes kept (negative: counted from the end)
+}
+
+func (s rspec) String() string {
+	return fmt.Sprintf("kind=%s,path=%s,via=%s,salt=%d,cut=%d", s.kind, s.path, s.via, s.salt, s.cut)
+}
+
+func parseRSpec(x string) rspec {
+	s := rspec{}
+	for _, kv := range strings.Split(x, ",") {
+		i := strings.Index(kv, "=")
+		k, v := kv[:i], kv[i+1:]
+		switch k {
+		case "kind":
+			s.kind = v
+		case "path":
+			s.path = v
+		case "via":
+			s.via = v
+		case "salt":
+			s.salt, _ = strconv.ParseInt(v, 10, 64)
+		case "cut":
+			s.cut, _ = strconv.Atoi(v)
+		}
+	}
+	return s
+}
+
+func resumeScenarios(thorough bool) []rspec {
+	l := []rspec{
+		{"filled", "abs", "file", 0x1122334455667788, 0},
+		{"filled", "bare", "file", -1, 0},
+		{"filled", "rel", "storage", -0x8000000000000000, 0},
+		{"filled", "abs", "newclient", 0x7fffffffffffffff, 0},
+		{"filled", "abs", "storage", 1, 0},
+		{"missing", "abs", "file", 0, 0},
+		{"missing", "bare", "storage", 0, 0},
+		{"torn", "abs", "file", 77, 0},
+		{"torn", "abs", "file", 77, 1},
+		{"torn", "abs", "file", 77, -1},
+		{"torn", "bare", "storage", 77, -2},
+	}
+	if thorough {
+		r := vc.NewRng(vc.Seed()).Fork(12)
+		for _, p := range []string{"abs", "rel", "bare"} {
+			for _, v := range []string{"file", "storage", "newclient"} {
+				for k := 0; k < 3; k++ {
+					l = append(l, rspec{"filled", p, v, int64(r.U64()), 0})
+				}
+				if v != "newclient" {
+					l = append(l, rspec{"missing", p, v, 0, 0})
+				}
+			}
+		}
+		for _, c := range []int{2, 10, 50, 100, 200, 300, 400, 450, -3, -5, -10, -40} {
+			l = append(l, rspec{"torn", "abs", "file", int64(r.U64()), c})
+		}
+	}
+	return l
+}
+
+func resumeMain(args []string) {
+	if len(args) >= 1 && args[0] == "one" {
+		resumeOne(args[1], parseRSpec(args[2]))
+		return
+	}
+	if len(args) < 2 {
+		die("usage: resume <tier> <out>")
+	}
+	out := newLineOut(args[1], false)
+	jobs := resumeScenarios(args[0] == "thorough")
+	results := make([][]string, len(jobs))
+	sem := make(chan struct{}, 4)
+	var wg sync.WaitGroup
+	for i := range jobs {
+		wg.Add(1)
+		sem <- struct{}{}
+		go func(i int) {
+			defer func() { <-sem; wg.Done() }()
+			results[i] = runChild("resume", strconv.Itoa(i+1), jobs[i].String())
+		}(i)
+	}
+	wg.Wait()
+	for _, ls := range results {
+		for _, l := range ls {
+			out.f.WriteString(l + "\n")
+		}
+	}
+	out.Line("END")
+}
+
+const crcReqPQ = 0x60469778
+const crcReqPQMulti = 0xbe7e8ef1
+
+type frameStats struct {
+	n, plain, unopenable, reqpq, otherSalt int
+	firstKind                              string
+	firstSaltOK                            bool
+	sessions                               map[int64]bool
+}
+
+func statsOf(fs []refserver.Frame, conn int, salt int64) frameStats {
+	st := frameStats{firstKind: "none", sessions: map[int64]bool{}}
+	for _, f := range fs {
+		if f.Conn != conn {
+			continue
+		}
+		kind := "encrypted"
+		switch {
+		case f.OpenErr != "":
+			kind = "unopenable"
+			st.unopenable++
+		case f.Plain:
+			kind = "plain"
+			st.plain++
+		default:
+			if f.Salt != salt {
+				st.otherSalt++
+			}
+			st.sessions[f.SessionID] = true
+		}
+		if f.Crc == crcReqPQ || f.Crc == crcReqPQMulti {
+			st.reqpq++
+			if f.Plain {
+				kind = "plain-req_pq"
+			}
+		}
+		if st.n == 0 {
+			st.firstKind = kind
+			st.firstSaltOK = kind == "encrypted" && f.Salt == salt
+		}
+		st.n++
+	}
+	return st
+}
+
+func resumeOne(id string, sp rspec) {
+	o := &mobs{id: id}
+	fmt.Printf("T\t%s\t%s\n", id, sp.String())
+	dir := scratch()
+	if err := os.MkdirAll(filepath.Join(dir, "sub"), 0o700); err != nil {
+		die("mkdir: %v", err)
+	}
+	if err := os.Chdir(dir); err != nil {
+		die("chdir: %v", err)
+	}
+	var path string
+	switch sp.path {
+	case "abs":
+		path = filepath.Join(dir, "sub", "session.json")
+	case "rel":
+		path = "./sub/session.json"
+	case "bare":
+		path = "session.json"
+	default:
+		die("bad path kind")
+	}
+	salt := sp.salt
+	if salt == 0 {
+		salt = 424242
+	}
+	srv, err := refserver.New(refserver.Options{Seed: vc.Seed()*31 + uint64(len(sp.String())), Salt: salt})
+	if err != nil {
+		die("refserver: %v", err)
+	}
+	// the configured address: a listener that only counts who connects
+	decoy, err := net.Listen("tcp", "127.0.0.1:0")
+	if err != nil {
+		die("decoy: %v", err)
+	}
+	var decoyConns int32
+	go func() {
+		for {
+			c, err := decoy.Accept()
+			if err != nil {
+				return
+			}
+			atomic.AddInt32(&decoyConns, 1)
+			c.Close()
+		}
+	}()
+	configured := decoy.Addr().String()
+	if sp.kind == "missing" {
+		configured = srv.Addr() // nothing stored: the configured address is the one to dial
+	}
+
+	var stored []byte
+	if sp.kind != "missing" {
+		if err := srv.WriteSession(path); err != nil {
+			die("writing session: %v", err)
+		}
+		stored, _ = os.ReadFile(path)
+	}
+	if sp.kind == "torn" {
+		k := sp.cut
+		if k < 0 {
+			k = len(stored) + k
+		}
+		if k < 0 || k >= len(stored) {
+			k = len(stored) / 2
+		}
+		if err := os.WriteFile(path, stored[:k], 0o600); err != nil {
+			die("tearing: %v", err)
+		}
+		o.put("torn-at", fmt.Sprintf("%d/%d", k, len(stored)))
+	}
+
+	pk := filepath.Join(dir, "keys.pem")
+	if err := os.WriteFile(pk, []byte(testPubKey), 0o600); err != nil {
+		die("keys: %v", err)
+	}
+	pub := mustKey(pk)
+
+	var m *mtproto.MTProto
+	var newErr error
+	connected := false
+	switch sp.via {
+	case "file":
+		m, newErr = mtproto.NewMTProto(mtproto.Config{AuthKeyFile: path, ServerHost: configured, PublicKey: pub})
+	case "storage":
+		m, newErr = mtproto.NewMTProto(mtproto.Config{SessionStorage: session.NewFromFile(path), ServerHost: configured, PublicKey: pub})
+	case "newclient":
+		cfg := &telegram.Config{Date: 1, Expires: 2, ThisDc: 2, MeURLPrefix: "https://t.me/"}
+		srv.OnFrame(func(f refserver.Frame) {
+			if f.Crc == 0xda9b0d0d {
+				_ = srv.Send(refserver.Msg{MsgID: srv.NextMsgID(true), SeqNo: 1, Body: refserver.RpcResult(f.MsgID, refserver.Object(cfg))})
+			}
+		})
+		var cl *telegram.Client
+		st, det := withWatchdog(watchdog, func() {
+			cl, newErr = telegram.NewClient(telegram.ClientConfig{SessionFile: path, ServerHost: configured, PublicKeysFile: pk, AppID: 94575, AppHash: "a3406de8d171bb422bb6ddf3bbd800e2"})
+		})
+		srv.OnFrame(nil)
+		if st != "ok" {
+			o.put("newclient", st)
+			o.put("newclient-detail", vc.HexS(det))
+			finish()
+		}
+		if cl != nil {
+			m = cl.MTProto
+			connected = true
+		}
+	default:
+		die("bad via")
+	}
+	if newErr != nil || m == nil {
+		o.put("client", "error")
+		o.put("server-conns", srv.Conns())
+		o.put("decoy-conns", atomic.LoadInt32(&decoyConns))
+		o.put("server-frames", srv.NumFrames())
+		finish()
+	}
+	o.put("client", "created")
+	enc, key, hash, gsalt, addr := m.VerifSessionState()
+	o.put("state-encrypted", enc)
+	o.put("state-key-is-stored-key", bytes.Equal(key, srv.AuthKey()))
+	o.put("state-hash-is-stored-hash", bytes.Equal(hash, srv.AuthKeyID()))
+	o.put("state-salt-is-stored-salt", gsalt == srv.Salt())
+	o.put("state-addr", map[bool]string{true: "stored", false: map[bool]string{true: "configured", false: "other"}[addr == configured]}[addr == srv.Addr() && sp.kind != "missing"])
+
+	if sp.kind == "missing" {
+		// the key exchange is not completed: CreateConnection blocks in it; only the first frame is observed
+		go func() { _ = m.CreateConnection() }()
+		fs, _ := srv.WaitFrames(1, watchdog)
+		st := statsOf(fs, 1, srv.Salt())
+		o.put("first-frame", st.firstKind)
+		o.put("server-conns", srv.Conns())
+		finish()
+	}
+
+	if !connected {
+		st, det := withWatchdog(watchdog, func() { newErr = m.CreateConnection() })
+		if st != "ok" || newErr != nil {
+			o.put("connect", st+":"+fmt.Sprint(newErr != nil))
+			o.put("connect-detail", vc.HexS(det))
+			o.put("first-frame", statsOf(srv.Frames(), 1, srv.Salt()).firstKind)
+			o.put("decoy-conns", atomic.LoadInt32(&decoyConns))
+			finish()
+		}
+	}
+	if err := srv.WaitConn(1, watchdog); err != nil {
+		o.put("connect", "server-saw-no-connection")
+		o.put("decoy-conns", atomic.LoadInt32(&decoyConns))
+		finish()
+	}
+	o.put("connect", "ok")
+
+	ping := func(token int64, odd bool) string {
+		before := len(nonAck(srv.Frames()))
+		res := make(chan string, 1)
+		go func() {
+			defer func() {
+				if r := recover(); r != nil {
+					res <- "panic"
+				}
+			}()
+			v, err := m.MakeRequest(&objects.PingParams{PingID: token})
+			if p, ok := v.(*objects.Pong); err == nil && ok && p.PingID == token {
+				res <- "pong"
+			} else if err != nil {
+				res <- "error"
+			} else {
+				res <- "other"
+			}
+		}()
+		fs := waitNonAck(srv, before+1, watchdog)
+		if len(fs) < before+1 {
+			select {
+			case r := <-res:
+				return "not-sent:" + r
+			default:
+				return "not-sent"
+			}
+		}
+		f := fs[before]
+		if pp, ok := f.Obj.(*objects.PingParams); !ok || pp.PingID != token {
+			return "server-got-something-else"
+		}
+		seq := int32(2)
+		if odd {
+			seq = 1
+		}
+		_ = srv.Send(refserver.Msg{MsgID: srv.NextMsgID(true), SeqNo: seq, Body: refserver.RpcResult(f.MsgID, refserver.Pong(f.MsgID, token))})
+		select {
+		case r := <-res:
+			return r
+		case <-time.After(watchdog):
+			return "hang"
+		}
+	}
+	rs := []string{}
+	for i := 0; i < 3; i++ {
+		rs = append(rs, ping(int64(100+i), i%2 == 1))
+	}
+	o.put("requests-conn1", strings.Join(rs, ","))
+	time.Sleep(10 * time.Millisecond) // the ack of the last answer
+	st1 := statsOf(srv.Frames(), 1, srv.Salt())
+	o.put("conn1-first-frame", st1.firstKind)
+	o.put("conn1-first-frame-salt-is-stored-salt", st1.firstSaltOK)
+	o.put("conn1-frames", st1.n)
+	o.put("conn1-plain", st1.plain)
+	o.put("conn1-unopenable", st1.unopenable)
+	o.put("conn1-req_pq", st1.reqpq)
+	o.put("conn1-frames-with-other-salt", st1.otherSalt)
+
+	// the server closes the connection: the client reconnects under the same key
+	srv.CloseConn()
+	if err := srv.WaitConn(2, watchdog); err != nil {
+		o.put("reconnect", "none")
+	} else {
+		o.put("reconnect", "ok")
+		rs = nil
+		for i := 0; i < 2; i++ {
+			rs = append(rs, ping(int64(200+i), i%2 == 0))
+		}
+		o.put("requests-conn2", strings.Join(rs, ","))
+		time.Sleep(10 * time.Millisecond)
+		st2 := statsOf(srv.Frames(), 2, srv.Salt())
+		o.put("conn2-first-frame", st2.firstKind)
+		o.put("conn2-first-frame-salt-is-stored-salt", st2.firstSaltOK)
+		o.put("conn2-frames", st2.n)
+		o.put("conn2-plain", st2.plain)
+		o.put("conn2-unopenable", st2.unopenable)
+		o.put("conn2-req_pq", st2.reqpq)
+		same := len(st1.sessions) == 1 && len(st2.sessions) == 1
+		for k := range st1.sessions {
+			same = same && st2.sessions[k]
+		}
+		o.put("conn2-same-session-id", same)
+	}
+	o.put("server-conns", srv.Conns())
+	o.put("decoy-conns", atomic.LoadInt32(&decoyConns))
+	// the store afterwards: still the same session for the next start
+	if s, err := session.NewFromFile(path).Load(); err != nil {
+		o.put("store-after", "unreadable")
+	} else {
+		o.put("store-after", map[bool]string{true: "same-session", false: "different"}[bytes.Equal(s.Key, srv.AuthKey()) && bytes.Equal(s.Hash, srv.AuthKeyID()) && s.Salt == srv.Salt() && s.Hostname == srv.Addr()])
+	}
+	time.Sleep(30 * time.Millisecond)
+	finish()
+}
